@@ -755,6 +755,9 @@ type vfC17World struct {
 	handlers   map[string]http.HandlerFunc
 	stub       *vfC17Stub
 
+	// opens watches the tree for files being opened.
+	opens *vfkit.Watcher
+
 	// locs remembers every location by its raw string.
 	locs map[string]vfC17Loc
 	// tokens are all tokens ever written into the tree; readable are those
@@ -816,6 +819,16 @@ func vfC17NewWorld(t vfC17T, kinds []string) (w *vfC17World) {
 		w.writeFile(f)
 	}
 
+	watch := []string{w.root}
+	for _, d := range vfC17Dirs {
+		watch = append(watch, w.root+"/"+d)
+	}
+	w.opens, err = vfkit.NewOpenWatcher(watch...)
+	if err != nil {
+		w.cleanup()
+		t.Fatalf("VERIF-INCONCLUSIVE watching the tree: %v", err)
+	}
+
 	return w
 }
 
@@ -836,6 +849,10 @@ func (w *vfC17World) bump(f *vfC17File) {
 }
 
 func (w *vfC17World) cleanup() {
+	if w.opens != nil {
+		w.opens.Close()
+		w.opens = nil
+	}
 	if w.d != nil {
 		w.d.Close()
 		w.d = nil
@@ -937,7 +954,38 @@ func (w *vfC17World) guard(what string, f func()) {
 		}
 	}()
 
+	if w.opens != nil {
+		_, _ = w.opens.Drain()
+	}
 	f()
+	w.checkOpens(what)
+}
+
+// checkOpens is the kernel-level half of "no local file outside the patterns
+// is read": the server must not even have opened one (whatever it then did
+// with the content, or with the error text it built from it).
+func (w *vfC17World) checkOpens(what string) {
+	if w.opens == nil {
+		return
+	}
+	evs, err := w.opens.Drain()
+	if err != nil {
+		w.t.Fatalf("VERIF-INCONCLUSIVE inotify: %v", err)
+	}
+	for _, e := range evs {
+		if !e.IsOpen() || e.Name == "" {
+			continue
+		}
+		clean := e.Dir + "/" + e.Name
+		f := w.fileAt(clean)
+		if f == nil {
+			continue
+		}
+		vfC17.Class("opens_observed")
+		if !w.allowed(clean) {
+			w.t.Fatalf("%s: the file %s was opened although it matches no safe pattern %q", what, clean, vfC17PatternTexts(w.patterns))
+		}
+	}
 }
 
 // call runs a captured handler.
